@@ -34,7 +34,7 @@ type vfPromptMsg struct {
 type vfPromptCase struct {
 	Id    int           `json:"id"`
 	Kind  string        `json:"kind"`  // text | vision | mllama | mllamaraw
-	Style string        `json:"style"` // legacy | messages
+	Style string        `json:"style"` // legacy | messages | sysonce
 	Msgs  []vfPromptMsg `json:"msgs"`
 	Limit *int          `json:"limit,omitempty"` // replay of one recorded case
 }
@@ -86,6 +86,8 @@ func vfPromptRun(c vfPromptCase) (out []map[string]any) {
 	var err error
 	if c.Style == "messages" {
 		tmpl, err = template.Parse(`{{- range .Messages }}{{ .Role }}: {{ .Content }} {{ end }}`)
+	} else if c.Style == "sysonce" { // as command-r: the collected system text once, system entries skipped in the range
+		tmpl, err = template.Parse(`{{- if .System }}{{ .System }} {{ end }}{{- range .Messages }}{{ if ne .Role "system" }}{{ .Role }}: {{ .Content }} {{ end }}{{ end }}`)
 	} else {
 		tmpl, err = template.Parse(`{{- if .System }}{{ .System }} {{ end }}{{- if .Prompt }}{{ .Prompt }} {{ end }}{{- if .Response }}{{ .Response }} {{ end }}`)
 	}
